@@ -349,10 +349,12 @@ func c10Rules() []c10Rule {
 			}},
 		{Name: "paired-pids", Service: true,
 			Make: func(v int) (map[string]any, map[string]any) {
-				return m("pids_limit", 10, "deploy", m("resources", m("limits", m("pids", 20)))), nil
+				// (-1 is the legal "unlimited" spelling: it disagrees with a finite limit like any other value)
+				return m("pids_limit", []any{10, -1, 30, 1}[v%4], "deploy", m("resources", m("limits", m("pids", 20)))), nil
 			},
 			Ctl: func(v int) (map[string]any, map[string]any) {
-				return m("pids_limit", 20, "deploy", m("resources", m("limits", m("pids", 20)))), nil
+				return []map[string]any{m("pids_limit", 20, "deploy", m("resources", m("limits", m("pids", 20)))), m("pids_limit", -1, "deploy", m("resources", m("limits", m("pids", -1)))),
+					m("pids_limit", -1), m("deploy", m("resources", m("limits", m("pids", 20))))}[v%4], nil
 			}},
 		{Name: "external-volume-with-creation-parameters",
 			Make: func(v int) (map[string]any, map[string]any) {
